@@ -332,6 +332,17 @@ def run_harness(exe, cases, wd, shards):
     return events, failures, "\n".join(errs)
 
 
+def build_exe():
+    """the harness instantiates header templates: rebuild it whenever a header of the checked tree is newer"""
+    bdir = vlib.build_repo("asan")
+    exe = os.path.join(bdir, "xv_c20")
+    if os.path.exists(exe):
+        hdrs = glob.glob(os.path.join(vlib.REPO, "src/xalanc/Include/*.hpp")) + glob.glob(os.path.join(vlib.REPO, "src/xalanc/XalanDOM/*.hpp"))
+        if hdrs and max(os.path.getmtime(h) for h in hdrs) > os.path.getmtime(exe):
+            os.remove(exe)
+    return vlib.build_harness("c20", "asan")
+
+
 def sanitizer_summary(stderr_text):
     mm = re.findall(r"(ERROR: AddressSanitizer: [^\n]*|runtime error: [^\n]*)", stderr_text)
     mm = [x for x in mm if "XPathFunctionTable" not in x]
@@ -348,10 +359,10 @@ def run(res, tier, seed):
     t0 = time.time()
     ms = models(tier)
     # ---- MC + GEN (one TLC run per model: refinement checked on every generated transition, leaves exported)
-    exe_future = ThreadPoolExecutor(max_workers=1).submit(vlib.build_harness, "c20", "asan")
+    exe_future = ThreadPoolExecutor(max_workers=1).submit(build_exe)
     cases, tagcount = [], {}
     par = 3 if quick else 2
-    caps = (2000, 1200) if quick else (40000, 20000)
+    caps = (1600, 900) if quick else (40000, 20000)
     with ThreadPoolExecutor(max_workers=par) as ex:
         outs = list(ex.map(lambda m: run_model(m, wd, max(2, vlib.NCPU // (par + 1)), caps, seed), ms))
     for m, (r, hs, counts) in zip(ms, outs):
